@@ -48,8 +48,8 @@ class C18(Property):
         "prepare on input that is already masked keeps the payload's mask: recorded as an observation, not judged (outside the statement)",
         "a NONE consumer facing a producer that declares an explicit all-False/nomask mask is not judged (statement speaks of 'unmasked producers')",
     )
-    cases = {"quick": 24000, "thorough": 200000}
-    min_nontrivial = {"quick": 10000, "thorough": 60000}
+    cases = {"quick": 24000, "thorough": 2000000}
+    min_nontrivial = {"quick": 10000, "thorough": 500000}
 
     def gen(self, rnd, i, tier):
         kind = ("roundtrip", "prepare", "accept")[i % 3]
